@@ -11,6 +11,7 @@ import (
 	"os"
 	"strings"
 
+	. "verifharness/cmd/c01/cgen"
 	"verifharness/lib"
 )
 
@@ -29,12 +30,12 @@ func bindingError(msg string) bool {
 		strings.Contains(m, "parameter") || strings.Contains(m, "placeholder") || strings.Contains(m, "missing")
 }
 
-func runCase(h handles, in Input, twin Input) Observed {
+func runCase(h Handles, in Input, twin Input) Observed {
 	var o Observed
-	o.Q, o.D = dry(h.q, in), dry(h.d, in)
-	o.Q2, o.D2 = dry(h.q, twin), dry(h.d, twin)
+	o.Q, o.D = Dry(h.Q, in), Dry(h.D, in)
+	o.Q2, o.D2 = Dry(h.Q, twin), Dry(h.D, twin)
 	if !in.NoExec {
-		o.R = realRun(h.r, h.rec, in)
+		o.R = RealRun(h.R, h.Rec, in)
 		switch {
 		case o.R.SQL == "":
 			o.Skip = "no statement reached the driver: " + o.R.Err
@@ -145,18 +146,10 @@ func sigOf(in Input) string {
 }
 
 func term(in, twin Input, o Observed) string {
-	return lib.App("mk_case", in.TI.Coq(), coqList(in.Chain), in.Fin.Coq(),
-		coqList(twin.Chain), twin.Fin.Coq(),
+	return lib.App("mk_case", in.TI.Coq(), CoqList(in.Chain), in.Fin.Coq(),
+		CoqList(twin.Chain), twin.Fin.Coq(),
 		o.Q.Coq(), o.D.Coq(), lib.Str(o.Q2.SQL), lib.Str(o.D2.SQL),
 		lib.Bool(o.Ran), o.R.Coq(), lib.Bool(o.RErr))
-}
-
-func twinOf(in Input, r *lib.Rng) Input {
-	fr := &fresher{n: 5000, rng: r}
-	t := in
-	t.Chain = fr.list(in.Chain)
-	t.Fin = in.Fin.twin(fr)
-	return t
 }
 
 type stored struct {
@@ -166,7 +159,7 @@ type stored struct {
 
 func main() {
 	a := lib.ParseArgs()
-	h := openHandles()
+	h := OpenHandles()
 	out := lib.NewOut(a.Out, "C01")
 	out.PerFile = 150
 
@@ -181,7 +174,7 @@ func main() {
 		}
 		out.Add(lib.Case{Term: term(in, twin, o),
 			JSON: map[string]interface{}{"input": in, "twin": twin, "observed": o},
-			Sig: sigOf(in), Kind: kind, Shape: shape(in), Nontriv: kind != "error" && nv >= 2 && hostileVals >= 1 && o.Ran})
+			Sig: sigOf(in), Kind: kind, Shape: Shape(in), Nontriv: kind != "error" && nv >= 2 && hostileVals >= 1 && o.Ran})
 		out.Count("finisher", in.Fin.K)
 		out.Count("chain_calls", fmt.Sprint(len(in.Chain)))
 		out.Count("bound_values", fmt.Sprint(min(nv, 12)))
@@ -237,18 +230,18 @@ func main() {
 		budget = a.N
 	}
 	for i := 0; i < budget; i++ {
-		var g *gen
+		var g *Gen
 		var in Input
 		kind := "main"
 		for {
-			g = newGen(r.Fork())
+			g = NewGen(r.Fork())
 			kind = "main"
-			if g.r.Chance(8, 100) {
-				in = g.badInput()
+			if g.Rng().Chance(8, 100) {
+				in = g.BadInput()
 				kind = "error"
 			} else {
-				in = g.input()
-				if g.r.Chance(15, 100) {
+				in = g.Input()
+				if g.Rng().Chance(15, 100) {
 					kind = "edge"
 				}
 			}
@@ -257,8 +250,8 @@ func main() {
 		if sg := sigOf(in); sg != "" {
 			out.Count("shape_of_fixed_finding", sg) // fixed in /repo b0cce87: back in the main stream
 		}
-		in.NoExec = !g.exec
-		add(kind, in, twinOf(in, r.Fork()))
+		in.NoExec = !g.Exec()
+		add(kind, in, TwinOf(in, r.Fork()))
 	}
 	out.Extra["rule"] = "cases = handle Model(&Item{}) x chain of Where/Not/Or (string templates with ?, @name templates with sql.Named/map/struct, column+value, map, struct, clause.Eq/Neq/Gt/Like/IN/And/Or/Not trees, grouped *DB, primary keys) / Select / Table (incl. sub-query table) / Joins / Group / Having / Order (string and clause.Expr) / Limit / Offset / Distinct / Clauses x finisher Find/First/Take/Last/Count/Pluck/Update/Updates(map,struct)/Delete/Create(struct,slice,map,[]map, OnConflict)/Raw/Exec x argument values (hostile strings, ints, bools, []byte, nil and non-nil pointers, sql.Null*, custom driver.Valuer incl. slice-kinded, gorm.Valuer, typed and []interface{} slices incl. empty and nested, clause.Expr with own arguments, sub-query handles built and unbuilt, clause.Column) x dialects ('?' DryRun, '$n' DryRun, SQLite executed); every case has a twin with all scalars replaced; 8% deliberately malformed calls (model-vs-code only); distinct = distinct call/constructor/template skeletons; non-trivial = in-domain stream, >= 2 bound values, >= 1 bound string containing a quote/backslash/?/@/)/;/backtick, executed on SQLite"
 	lib.Must(out.Flush())
